@@ -1,17 +1,117 @@
-"""C16 — saved values restore to equal values; saves are atomic; restore is robust (DESIGN §3 C16)."""
+"""C16 — saved values restore to equal values; saves are atomic; restore is robust (DESIGN §3 C16).
+
+Enumeration + fault enumeration on the real lib/lpc/object.c / mapping.c through save_variable, restore_variable,
+save_object, restore_object (C entry points and efuns), with the interposed libc file layer env/fs.c:
+  names   save-file name handling ("", 1-character names, .c/.o suffixes)
+  chain   nesting chains of each container kind at 1, 2, limit-2 .. limit+2, 2*limit (limit = MAX_SAVE_SVALUE_DEPTH)
+  leaves  13+1 ints, 6 floats, 513 strings (every byte 1..255 alone and as a?b, mixed escapes, empty, UTF-8) x 9 contexts,
+          C entry points + efuns + save_object(0/1)/restore_object with static, inherited-static and object-valued variables
+  struct  every value of {leaf | array 0..2 | mapping 0..2 | class 1..2}: thorough: depth 3 over 2 leaves (10 036 970
+          values), variable and object round trip; quick: depth 2 over 2 leaves (1 828 values) likewise, and depth 3 over
+          1 leaf (354 294 values) through save_variable/restore_variable
+  damage  58 saved texts (quick: the first 29): every prefix, every substitution by 16 symbols, every deletion, x {restore_variable,
+          restore_object, restore_object(,1)}; 3 save files likewise with 19 symbols x {clear, noclear}
+  strings every string of length <= 5 (quick) / 6 (thorough) over ( { [ / " , : } ) ] \\ - . e + 1 through restore_svalue and
+          safe_restore_svalue
+  crash   save_object over an existing file: crash before/after each of the first 14 libc calls, each failing with
+          EIO/ENOSPC, pad 10/5000/9000 bytes, save_zeros 0/1; a left-over temporary of every length
+"""
 import os, glob, subprocess
 import vlib, build as B
+
 LEVEL = "fault_enumeration"
 SRC = ["h/h_c16.c", "env/fs.c"]
 FS_WRAPS = open(os.path.join(B.VERIF, "env", "fs.wraps")).read().split()
 
+RULE = ("values: grammar {int, float, string, array(0..2), mapping(0..2 pairs, int/string keys), class(1..2)} to depth 3 over "
+        "{7} (quick) / {7, \"a\\\"b\"} (thorough), every leaf of {0, +-1, 2, 7, 255, 256, +-2^31, -2^31-1, 2^32, 2^63-1, -2^63; 0.0, 1.0, -2.5, "
+        "1e-7, 1e20, 12345678.0; every byte 1..255 alone and in a?b, \"\\\"\\\\\\n\\r\", \"\", UTF-8} in 9 contexts (top, array x1 x2, mapping "
+        "value, mapping key, class member, array in array, array in mapping, between empty containers), nesting chains around "
+        "MAX_SAVE_SVALUE_DEPTH; oracle: svalue_save_size >= strlen+1, deep equality of types and values (floats at %g precision) "
+        "after save_variable/restore_variable and after save_object/restore_object (static variables keep the pre-restore "
+        "value, object variables come back 0), parser counter save_svalue_depth back to 0 and a fixed probe round trip after every "
+        "operation; damaged text: every prefix / single substitution (16 symbols) / single deletion of 58 saved texts and of 3 save "
+        "files, every string of length <= 5/6 over 16 structural symbols: value or LPC error, sanitizer clean, noclear keeps the "
+        "old value on error; fault points: crash before/after and failure (EIO, ENOSPC) of every libc call of save_object over "
+        "an existing file, left-over temporary of every length: save file byte-identical to the old or the complete new one, "
+        "return value agrees")
+
+
 def build(ck):
     return {"h_c16": ck.harness("h_c16", SRC, wraps=vlib.STD_WRAPS + FS_WRAPS)}
 
+
+def sweep_shm():
+    for d in glob.glob("/dev/shm/verif-fs-*"):
+        try:
+            pid = int(d.rsplit("-", 1)[1])
+            os.kill(pid, 0)
+        except ProcessLookupError:
+            subprocess.run(["rm", "-rf", d])
+        except Exception:
+            pass
+
+
+def _parts(ck, exe, quick, deadline):
+    ck.enum(exe, ["--part=names"], "names", batch=2, deadline_s=deadline)
+    ck.enum(exe, ["--part=chain"], "chain", batch=2, deadline_s=deadline)
+    ck.enum(exe, ["--part=leaves"], "leaves", batch=60, deadline_s=deadline)
+    ck.enum(exe, ["--part=crash"], "crash", batch=8, deadline_s=deadline, timeout_ms=30000)
+    if quick:
+        ck.enum(exe, ["--part=damage", "--ntexts=29"], "damage", batch=200, deadline_s=deadline)
+        ck.enum(exe, ["--part=strings", "--slen=5"], "strings", batch=16, deadline_s=deadline, timeout_ms=60000)
+        ck.enum(exe, ["--part=struct", "--nl=2", "--depth=2"], "struct-d2", batch=8, deadline_s=deadline, timeout_ms=60000)
+        ck.enum(exe, ["--part=struct", "--nl=1", "--depth=3", "--objrt=0"], "struct-d3", batch=40, deadline_s=deadline, timeout_ms=60000)
+    else:
+        ck.enum(exe, ["--part=damage"], "damage", batch=200, deadline_s=deadline)
+        ck.enum(exe, ["--part=strings", "--slen=6"], "strings", batch=16, deadline_s=deadline, timeout_ms=60000)
+        ck.enum(exe, ["--part=struct", "--nl=2", "--depth=3"], "struct-d3", batch=40, deadline_s=deadline, timeout_ms=60000)
+
+
 def run(ck):
+    sweep_shm()
     exe = build(ck)["h_c16"]
-    ck.enum(exe, ["--part=chain"], "chain", batch=4)
-    ck.finish(vlib.enum_coverage(ck.parts, "wip", "elements_done"))
+    _parts(ck, exe, ck.tier == "quick", 200 if ck.tier == "quick" else 2000)
+    sweep_shm()
+    cov = vlib.enum_coverage(ck.parts, RULE, "elements_done")
+    for name in ("values_or_texts", "restores_refused", "restores_accepted", "crash_points", "failing_calls",
+                 "size_table_retained", "elements_ended_by_memory_error"):
+        cov[name] = sum(p.get("counters", {}).get(name, 0) for p in ck.parts)
+    # fault_enumeration evidence: injection points
+    cov["fault_points"] = cov["crash_points"] + cov["failing_calls"]
+    ck.finish(cov, assumptions=[
+        "a crash is modelled at libc-call boundaries (_exit without flushing stdio); the oracle reads only <name>.o, which a save touches with one rename()",
+        "floats are compared at the printed (%g) precision, as the statement says",
+        "every element runs in its own process, which ends at its first sanitizer report (what a process does after a wild access is not reproducible); the count is reported as elements_ended_by_memory_error and is 0 on a tree without memory errors; a block of 256 structural strings is one element",
+        "a retained size table (save_svalue_sizes != NULL with the counter at 0) is not counted as 'not at rest'; it is reported as size_table_retained",
+        "the locale is C.UTF-8 (hx_boot), as in a normally started driver; byte strings that are not valid UTF-8 are part of the alphabet",
+        "evaluation directories live in /dev/shm/verif-fs-<pid> (tmpfs) and are removed by the harness",
+    ])
+
+
+def mut_run(ck, exes):
+    """small bounds for the seeded-mutation runs"""
+    exe = exes["h_c16"]
+    ck.enum(exe, ["--part=names"], "m-names", batch=2)
+    ck.enum(exe, ["--part=chain"], "m-chain", batch=2)
+    ck.enum(exe, ["--part=leaves"], "m-leaves", batch=60)
+    ck.enum(exe, ["--part=crash"], "m-crash", batch=8)
+    ck.enum(exe, ["--part=damage"], "m-damage", batch=200)
+    ck.enum(exe, ["--part=strings", "--slen=4"], "m-strings", batch=16)
+    ck.enum(exe, ["--part=struct", "--nl=1", "--depth=2"], "m-struct", batch=4)
+
 
 def selftest(ck):
-    return 0
+    exe = build(ck)["h_c16"]
+    bad = 0
+    for st, part, frag in ((1, "leaves", "C16:selftest:value-changed"), (2, "crash", "save-file-neither-old-nor-new"), (3, "strings", "C16:selftest:parser-state-not-reset")):
+        ck2 = vlib.Check("C16", "quick", 0, LEVEL)
+        args = ["--part=" + part, "--selftest=%d" % st] + (["--slen=3"] if part == "strings" else [])
+        ck2.enum(exe, args + (["--to=40"] if part == "leaves" else []), "selftest%d" % st, batch=8)
+        hit = [k for k in ck2.fails if frag in k]
+        if not hit:
+            print("SELFTEST-FAILED C16 variant %d raised nothing matching %s (got %s)" % (st, frag, sorted(ck2.fails)[:6])); bad = 1
+        else:
+            print("selftest %d ok: %s" % (st, hit[:2]))
+    sweep_shm()
+    return bad
